@@ -27,7 +27,7 @@ def base_scenarios(tier, rng):
     out = []
     i = 0
     # Connect outcomes that never establish the connection
-    for ca in ("refuse", "silent", "malformed", "peerclose"):
+    for ca in ("refuse", "refuse1", "refuse6", "refuse17", "refuse128", "refuse255", "silent", "malformed", "peerclose"):
         for cancel in (False, True):
             if ca == "silent" and not cancel:
                 continue      # Connect would legitimately wait for ever (assumption A5)
